@@ -11,5 +11,5 @@ if ! git apply --check "$P" 2>/dev/null; then
 else
   git apply "$P"
 fi
-cd /verif && VERIF_REPO="$W" ./vcheck "$ID" --tier "$TIER" "$@" 2>&1 | grep -E "^\[C|^\[X|VIOLATION|KNOWN|UNDECIDED|STALE|CHECKER" | cut -c1-260
-cd /; git -C /repo worktree remove --force "$W"
+cd /verif && VERIF_OUT="$W.out" VERIF_REPO="$W" ./vcheck "$ID" --tier "$TIER" "$@" 2>&1 | grep -E "^\[C|^\[X|VIOLATION|KNOWN|UNDECIDED|STALE|CHECKER" | cut -c1-260
+cd /; git -C /repo worktree remove --force "$W"; rm -rf "$W.out"
